@@ -12,6 +12,8 @@ Init == /\ tid \in 1..N /\ l = 1 /\ bad = ""
         /\ closed = [q \in Qs |-> FALSE]
 Fail(c) == bad' = c /\ UNCHANGED <<acc, rcv, wait, closed>>
 Skip == UNCHANGED <<acc, rcv, wait, closed, bad>>
+\* the final drain lists one entry per queue the world has; a queue that does not exist is empty
+Dr(e, q) == IF q <= Len(e.drain) THEN e.drain[q] ELSE <<>>
 Step ==
   /\ l <= Len(Traces[tid]) /\ bad = ""
   /\ l' = l + 1 /\ UNCHANGED tid
@@ -48,9 +50,9 @@ Step ==
             IF closed[F(Traces[tid][l - 1], "q", 1)] THEN Skip ELSE Fail("C10.put_refused_on_open_queue")
        [] e.e = "fin" ->
             IF ~e.ok THEN Skip
-            ELSE IF \E q \in Qs : \E i \in 1..Len(e.drain[q]) : InSeq(rcv[q], e.drain[q][i]) THEN Fail("C10.duplicate")
-            ELSE IF \E q \in Qs : rcv[q] \o e.drain[q] # acc[q] THEN Fail("C10.lost")
-            ELSE IF \E q \in Qs : wait[q] # <<>> /\ e.drain[q] # <<>> THEN Fail("C10.receiver_starved")
+            ELSE IF \E q \in Qs : \E i \in 1..Len(Dr(e, q)) : InSeq(rcv[q], Dr(e, q)[i]) THEN Fail("C10.duplicate")
+            ELSE IF \E q \in Qs : rcv[q] \o Dr(e, q) # acc[q] THEN Fail("C10.lost")
+            ELSE IF \E q \in Qs : wait[q] # <<>> /\ Dr(e, q) # <<>> THEN Fail("C10.receiver_starved")
             ELSE Skip
        [] OTHER -> Skip
 Spec == Init /\ [][Step]_vars
